@@ -574,6 +574,11 @@ acquire_stop(struct AcquireRuntime* self_)
                   &video->sink.in, &video->monitor.reader, nbytes);
                 TRACE("[stream: %d] Monitor flushed %llu bytes", i, nbytes);
             } while (nbytes);
+            // The flush may run while the client still holds a mapped region.
+            // The channel flags that as a misuse of the reader, but it is this
+            // function's doing, not the client's: don't let it poison every
+            // later acquire_map_read().
+            video->monitor.reader.status = Channel_Ok;
         }
     }
     self->state = DeviceState_Armed;
